@@ -13,7 +13,7 @@ def numOf : S → Option Rat
   | .num n => some n.toRat
   | _ => none
 
-/-- an empty cell: a blank, or the empty string a never-written cell of a range holds -/
+/-- an empty cell: a blank (a cell that holds nothing), or a cell explicitly set to the empty string -/
 def isEmpty : S → Bool
   | .blank => true
   | .text [] => true
